@@ -1400,7 +1400,9 @@ SOCK_PART = {
             "field and the frame limit allow; what each end reads is compared with SockFront.sk_model (every message "
             "intact, in order, end-of-stream after the writer is dropped) and judged by SockFront.sk_ok; non-trivial = the "
             "framing differs from the default; thorough adds every length-field width x byte order x transport x codec "
-            "and a 9 MiB body under a raised frame limit",
+            "and a 9 MiB body under a raised frame limit; a run that cannot set its sockets up or hits a read timeout is "
+            "repeated (at most twice); if plain tokio sockets of that kind (no tarpc code) do not work in the process "
+            "either, the script decides nothing and is counted under NO-SOCKETS-IN-THIS-SANDBOX in the scenario histogram",
     "max_shrinks": 2,
 }
 _sp = SPECS["C15"]
